@@ -1,5 +1,544 @@
-import Smooth.Model.Surface
+/-
+C05 — Symbolic derivatives denote the true derivative.
+
+"The expression returned by `as_expression()` of a `Derivative` or `Partial` is, at every point where
+the original expression is defined, itself defined and equal in value to the true partial derivative
+of the original (its domain may only be larger).  It mentions no variable that the original does not
+mention, and it is again a well-formed expression, so differentiating it once more yields the true
+second-order partial."
+
+`symFwd realNum x e` is the model of `e._synthetic_partial(x)` (forward symbolic route);
+`retrieveSyntheticPartial` = `_synthetic_partial(x)._normalize()`; `PartialObj.asExpression`,
+`DerivativeObj.asExpression` are the public `as_expression()`.  "True partial derivative" is Mathlib's
+`HasDerivAt` / `deriv` of the denotation `den` along the coordinate `x`, all other coordinates held.
+The statements about the raw symbolic partial hold for EVERY valuation `ρ` of the domain (not only
+the valuations `valOf p` of points); the point forms talk about the evaluator `evalG`.
+
+Proofs: Proofs/SymForward.lean; the two concrete `as_expression()` runs: Proofs/SymForwardRun.lean.
+-/
+import Smooth.Proofs.SymForward
+import Smooth.Proofs.SymForwardRun
+import Smooth.Proofs.SymReverse
+
 namespace Smooth
-/-- placeholder while the property file is being written -/
-theorem C05_placeholder : (1 : Nat) = 1 := rfl
+open Expr Filter Topology
+
+/-! ## forward route: `_synthetic_partial` -/
+
+/-- **C05, value.**  Wherever `e` is defined, the value of its symbolic partial is the derivative of
+`t ↦ ⟦e⟧(ρ[x ↦ t])` at `ρ x` — for every expression, every variable name, every valuation. -/
+theorem symbolic_partial_hasDerivAt (ρ : String → ℝ) (x : String) (e : Expr ℝ) (hwf : WF e)
+    (hd : Dom ρ e) :
+    HasDerivAt (fun t => den (upd ρ x t) e) (den ρ (symFwd realNum x e)) (ρ x) :=
+  symFwd_hasDerivAt ρ x e hwf hd
+
+/-- **C05, value, through the evaluator.**  At every supplied point of the domain of `e`, evaluating
+the symbolic partial succeeds and returns *the* partial derivative of `e` there. -/
+theorem symbolic_partial_value (p : Point ℝ) (x : String) (e : Expr ℝ) (hwf : WF e) (hs : Supp p e)
+    (hd : Dom (valOf p) e) :
+    evalG realNum p (symFwd realNum x e) =
+      .ok (deriv (fun t => den (upd (valOf p) x t) e) (valOf p x)) :=
+  symFwd_eval_deriv p x e hwf hs hd
+
+/-- the symbolic route and the numeric forward route (C03) agree: evaluating `_synthetic_partial`
+gives exactly what `_numeric_partial` computes (the `Power` short-cut of the numeric code included) -/
+theorem symbolic_partial_eq_numeric (p : Point ℝ) (x : String) (e : Expr ℝ) (hwf : WF e)
+    (hs : Supp p e) (hd : Dom (valOf p) e) :
+    evalG realNum p (symFwd realNum x e) = fwdG realNum p x e :=
+  symFwd_eval p x e hwf hs hd
+
+/-- the form asked for in the task: whatever number forward mode returns, the symbolic partial is
+supplied, in its domain, and denotes that number -/
+theorem symbolic_partial_sound (p : Point ℝ) (x : String) (e : Expr ℝ) (hwf : WF e) (hs : Supp p e)
+    (hd : Dom (valOf p) e) (d : ℝ) (h : fwdG realNum p x e = .ok d) :
+    Supp p (symFwd realNum x e) ∧ Dom (valOf p) (symFwd realNum x e) ∧
+      den (valOf p) (symFwd realNum x e) = d :=
+  symFwd_sound p x e hwf hs hd d h
+
+/-- **C05, definedness.**  The symbolic partial is defined wherever the original is: its domain may
+only be larger (it is strictly larger in the example below). -/
+theorem symbolic_partial_defined (ρ : String → ℝ) (x : String) (e : Expr ℝ) (hwf : WF e)
+    (hd : Dom ρ e) : Dom ρ (symFwd realNum x e) :=
+  symFwd_dom ρ x e hwf hd
+
+/-- read on the evaluator: where `e` has a value, its symbolic partial has a value -/
+theorem symbolic_partial_defined_eval (p : Point ℝ) (x : String) (e : Expr ℝ) (hwf : WF e) (v : ℝ)
+    (hv : evalG realNum p e = .ok v) : ∃ d, evalG realNum p (symFwd realNum x e) = .ok d := by
+  obtain ⟨hs, hd, _⟩ := (evalR_good p e hwf).ok_iff.mp hv
+  exact ⟨_, symFwd_eval_deriv p x e hwf hs hd⟩
+
+/-- **C05, variables.**  The symbolic partial mentions no variable that `e` does not mention (for
+every number instance, not only the reals). -/
+theorem symbolic_partial_vars {α : Type} (N : Num α) (x : String) (e : Expr α) (y : String)
+    (h : y ∈ (symFwd N x e).vars) : y ∈ e.vars :=
+  vars_symFwd_subset N x e h
+
+/-- hence every point that supplies `e` supplies its symbolic partial -/
+theorem symbolic_partial_supplied (p : Point ℝ) (x : String) (e : Expr ℝ) (hs : Supp p e) :
+    Supp p (symFwd realNum x e) :=
+  symFwd_supp p x e hs
+
+/-- **C05, well-formedness.**  The symbolic partial of a well-formed expression is well formed
+(n ≥ 1, bases positive, logarithm bases ≠ 1) — so everything above applies to it again. -/
+theorem symbolic_partial_wf (x : String) (e : Expr ℝ) (hwf : WF e) : WF (symFwd realNum x e) :=
+  WF_symFwd x e hwf
+
+/-- with respect to a variable that does not occur, the symbolic partial evaluates to 0 -/
+theorem symbolic_partial_not_occurring (ρ : String → ℝ) (x : String) (e : Expr ℝ) (hwf : WF e)
+    (hd : Dom ρ e) (hx : ¬ Occurs x e) : den ρ (symFwd realNum x e) = 0 :=
+  symFwd_den_of_not_occurs ρ x e hwf hd hx
+
+/-! ## second order -/
+
+/-- **the domain is open along coordinate lines**: near the point, along any coordinate, `e` stays
+defined (this is what makes "the first partial as a function of `y`" meaningful) -/
+theorem domain_open_along_coordinate (ρ : String → ℝ) (y : String) (e : Expr ℝ) (hwf : WF e)
+    (hd : Dom ρ e) : ∀ᶠ t in 𝓝 (ρ y), Dom (upd ρ y t) e :=
+  dom_eventually ρ y e hwf hd
+
+/-- near the point along the `y`-line, the symbolic partial IS the first partial `∂e/∂x` -/
+theorem symbolic_partial_is_first_partial_nearby (ρ : String → ℝ) (x y : String) (e : Expr ℝ)
+    (hwf : WF e) (hd : Dom ρ e) :
+    ∀ᶠ t in 𝓝 (ρ y), den (upd ρ y t) (symFwd realNum x e) =
+      deriv (fun s => den (upd (upd ρ y t) x s) e) ((upd ρ y t) x) :=
+  first_partial_eventually ρ x y e hwf hd
+
+/-- **C05, second order.**  Differentiating the symbolic partial once more yields the true
+second-order partial: the twice-differentiated expression is defined wherever `e` is, and its value
+is the derivative along `y` of the function `t ↦ (∂e/∂x)(ρ[y ↦ t])`. -/
+theorem second_order_partial (ρ : String → ℝ) (x y : String) (e : Expr ℝ) (hwf : WF e)
+    (hd : Dom ρ e) :
+    Dom ρ (symFwd realNum y (symFwd realNum x e)) ∧
+      HasDerivAt (fun t => deriv (fun s => den (upd (upd ρ y t) x s) e) ((upd ρ y t) x))
+        (den ρ (symFwd realNum y (symFwd realNum x e))) (ρ y) :=
+  ⟨second_partial_dom ρ x y e hwf hd, second_partial_deriv ρ x y e hwf hd⟩
+
+/-- the same about the expression `symFwd x e` itself (the form of the task statement) -/
+theorem second_order_partial_expr (p : Point ℝ) (x y : String) (e : Expr ℝ) (hwf : WF e)
+    (_hs : Supp p e) (hd : Dom (valOf p) e) :
+    HasDerivAt (fun t => den (upd (valOf p) y t) (symFwd realNum x e))
+      (den (valOf p) (symFwd realNum y (symFwd realNum x e))) (valOf p y) :=
+  second_partial (valOf p) x y e hwf hd
+
+/-- … and through the evaluator: at a supplied point of the domain of `e`, evaluating the
+twice-differentiated expression returns that second-order partial -/
+theorem second_order_partial_value (p : Point ℝ) (x y : String) (e : Expr ℝ) (hwf : WF e)
+    (hs : Supp p e) (hd : Dom (valOf p) e) :
+    evalG realNum p (symFwd realNum y (symFwd realNum x e)) =
+      .ok (deriv (fun t => deriv (fun s => den (upd (upd (valOf p) y t) x s) e)
+        ((upd (valOf p) y t) x)) (valOf p y)) := by
+  rw [(second_partial_deriv (valOf p) x y e hwf hd).deriv]
+  exact (evalR_good p _ (WF_symFwd y _ (WF_symFwd x e hwf))).ok_iff.mpr
+    ⟨symFwd_supp p y _ (symFwd_supp p x e hs), second_partial_dom (valOf p) x y e hwf hd, rfl⟩
+
+/-! ## `as_expression()` : the normalised symbolic partial
+
+FULL STATEMENT (what the property text asks for; FALSE for the code as it is, because of the recorded
+defect K1 — see `as_expression_K1_witness` below):
+
+  theorem as_expression_sound (e : Expr ℝ) (x : String) (hwf : WF e) (s : Expr ℝ) (P' : PartialObj ℝ)
+      (w : Bool) (h : (PartialObj.mk e x none).asExpression realNum = .ok (s, P', w)) :
+      WF s ∧ (∀ y ∈ s.vars, y ∈ e.vars) ∧ (∀ p, Supp p e → Supp p s) ∧
+        (∀ ρ, Dom ρ e → Dom ρ s ∧ HasDerivAt (fun t => den (upd ρ x t) e) (den ρ s) (ρ x)) ∧ …
+
+PROVED (`as_expression_sound_partial`): the same under the hypothesis
+`NormOK K1FreeAt REDUCTION_STEPS_BOUND NORMALIZE_FUEL (symFwd realNum x e)`, i.e. "no rewrite
+`NthRoot(NthPower(u, m), n) ⇒ NthPower(NthRoot(u, n), m)` with `m`, `n` both even happens during the
+normalisation run of the raw symbolic partial".  What is missing for the full statement is exactly
+the soundness of that one rule instance, which does not hold.
+-/
+
+/-- **C05, `Partial.as_expression()`** (object that has not computed its expression yet), outside K1:
+the returned expression `s` refines the raw symbolic partial; it is memoised in the object; it is
+well formed, mentions no variable that `e` does not mention, is supplied by every point that supplies
+`e`, is defined wherever `e` is defined and its value there is the true partial derivative — in
+`HasDerivAt` form for every valuation, and through the evaluator at points (where it also coincides
+with what numeric forward mode answers). -/
+theorem as_expression_sound_partial (e : Expr ℝ) (x : String) (hwf : WF e)
+    (hK1 : NormOK K1FreeAt REDUCTION_STEPS_BOUND NORMALIZE_FUEL (symFwd realNum x e))
+    (s : Expr ℝ) (P' : PartialObj ℝ) (w : Bool)
+    (h : (PartialObj.mk e x none).asExpression realNum = .ok (s, P', w)) :
+    Refines (symFwd realNum x e) s ∧ P' = ⟨e, x, some s⟩ ∧
+      WF s ∧ (∀ y, y ∈ s.vars → y ∈ e.vars) ∧ (∀ p : Point ℝ, Supp p e → Supp p s) ∧
+      (∀ ρ : String → ℝ, Dom ρ e →
+        Dom ρ s ∧ HasDerivAt (fun t => den (upd ρ x t) e) (den ρ s) (ρ x)) ∧
+      (∀ p : Point ℝ, Supp p e → Dom (valOf p) e → evalG realNum p s = fwdG realNum p x e) := by
+  obtain ⟨hret, hP⟩ := asExpression_late h
+  have hr := retrieveSyntheticPartial_refines e x s w hK1 hret
+  exact ⟨hr, hP, refines_symFwd_facts hr hwf⟩
+
+/-- the value through the evaluator, spelled out as `deriv` -/
+theorem as_expression_value_partial (e : Expr ℝ) (x : String) (hwf : WF e)
+    (hK1 : NormOK K1FreeAt REDUCTION_STEPS_BOUND NORMALIZE_FUEL (symFwd realNum x e))
+    (s : Expr ℝ) (P' : PartialObj ℝ) (w : Bool)
+    (h : (PartialObj.mk e x none).asExpression realNum = .ok (s, P', w))
+    (p : Point ℝ) (hs : Supp p e) (hd : Dom (valOf p) e) :
+    evalG realNum p s = .ok (deriv (fun t => den (upd (valOf p) x t) e) (valOf p x)) := by
+  obtain ⟨_, _, _, _, _, _, hev⟩ := as_expression_sound_partial e x hwf hK1 s P' w h
+  rw [hev p hs hd, ← symFwd_eval p x e hwf hs hd]
+  exact symFwd_eval_deriv p x e hwf hs hd
+
+/-- a second `as_expression()` returns the memoised expression, without a warning -/
+theorem as_expression_memoised (e s : Expr ℝ) (x : String) :
+    (PartialObj.mk e x (some s)).asExpression realNum = .ok (s, ⟨e, x, some s⟩, false) := rfl
+
+/-- after `as_expression()` the object evaluates through the stored expression; on supplied points of
+the domain the answers of `.at(point)` are unchanged -/
+theorem partial_at_unchanged_partial (e : Expr ℝ) (x : String) (hwf : WF e)
+    (hK1 : NormOK K1FreeAt REDUCTION_STEPS_BOUND NORMALIZE_FUEL (symFwd realNum x e))
+    (s : Expr ℝ) (P' : PartialObj ℝ) (w : Bool)
+    (h : (PartialObj.mk e x none).asExpression realNum = .ok (s, P', w))
+    (p : Point ℝ) (hs : Supp p e) (hd : Dom (valOf p) e) :
+    P'.at realNum p = (PartialObj.mk e x none).at realNum p := by
+  obtain ⟨hr, hP, _⟩ := as_expression_sound_partial e x hwf hK1 s P' w h
+  rw [hP]
+  exact partial_at_memoised hr hwf p hs hd
+
+/-- `Partial(e, x, compute_early=True)` stores the same normalised expression -/
+theorem partial_early_sound_partial (e : Expr ℝ) (x : String) (hwf : WF e)
+    (hK1 : NormOK K1FreeAt REDUCTION_STEPS_BOUND NORMALIZE_FUEL (symFwd realNum x e))
+    (P : PartialObj ℝ) (w : Bool) (h : PartialObj.new realNum e x true = .ok (P, w)) :
+    ∃ s, P = ⟨e, x, some s⟩ ∧ Refines (symFwd realNum x e) s ∧ WF s ∧
+      (∀ ρ : String → ℝ, Dom ρ e →
+        Dom ρ s ∧ HasDerivAt (fun t => den (upd ρ x t) e) (den ρ s) (ρ x)) := by
+  obtain ⟨s, hret, hP⟩ := partialNew_early h
+  have hr := retrieveSyntheticPartial_refines e x s w hK1 hret
+  obtain ⟨h1, _, _, h4, _⟩ := refines_symFwd_facts hr hwf
+  exact ⟨s, hP, hr, h1, h4⟩
+
+/-- **C05, `Derivative.as_expression()`** : a `Derivative` wraps the `Partial` in its single variable -/
+theorem derivative_as_expression_sound_partial (D : DerivativeObj ℝ) (e : Expr ℝ) (x : String)
+    (hD : D.partial_ = ⟨e, x, none⟩) (hwf : WF e)
+    (hK1 : NormOK K1FreeAt REDUCTION_STEPS_BOUND NORMALIZE_FUEL (symFwd realNum x e))
+    (s : Expr ℝ) (D' : DerivativeObj ℝ) (w : Bool)
+    (h : D.asExpression realNum = .ok (s, D', w)) :
+    Refines (symFwd realNum x e) s ∧ D'.partial_ = ⟨e, x, some s⟩ ∧
+      WF s ∧ (∀ y, y ∈ s.vars → y ∈ e.vars) ∧ (∀ p : Point ℝ, Supp p e → Supp p s) ∧
+      (∀ ρ : String → ℝ, Dom ρ e →
+        Dom ρ s ∧ HasDerivAt (fun t => den (upd ρ x t) e) (den ρ s) (ρ x)) ∧
+      (∀ p : Point ℝ, Supp p e → Dom (valOf p) e → evalG realNum p s = fwdG realNum p x e) :=
+  as_expression_sound_partial e x hwf hK1 s D'.partial_ w (derivativeAsExpression_late hD h)
+
+/-- a `Derivative` built the ordinary way (not computed early) does wrap such a `Partial` -/
+theorem derivative_new_late (e : Expr ℝ) (D : DerivativeObj ℝ) (w : Bool)
+    (h : DerivativeObj.new realNum e false = .ok (D, w)) :
+    singleVarName e = .ok D.x ∧ D.partial_ = ⟨e, D.x, none⟩ :=
+  derivativeNew_late h
+
+/-! ### K1: the hypothesis cannot be dropped
+
+The hypothesis `NormOK K1FreeAt …` excludes exactly the even/even instances of the rule
+`NthRoot(NthPower(u, m), n) ⇒ NthPower(NthRoot(u, n), m)`.  For `e = NthRoot(NthPower(x, 2), 2)`
+(= |x|) the witness is carried through the WHOLE of `as_expression()` over the reals (26 reduction
+steps replayed one by one in Proofs/SymForwardRun.lean, then the normal-form pass): the run performs
+the even/even rewrite (then `NthPower(NthRoot(x,2),2) ⇒ x`), and the object returns `Divide(x, x)`.
+At `x = -3`, where `e` is defined and its derivative is `-1`, the returned expression evaluates to
+`+1`.  The same happens through the product rule for `e = x * NthRoot(NthPower(x, 2), 2)` (= x·|x|,
+38 steps): the object returns `x + (x * x) / x`, which is `-6` at `x = -3` where the derivative is `6`.
+-/
+
+/-- **K1 witness.**  `Partial(NthRoot(NthPower(x, 2), 2), "x").as_expression()` returns
+`Divide(x, x)`; at the point `x = -3` the original is defined, its true partial (what forward mode
+returns) is `-1`, the returned expression evaluates to `1`.  So the returned expression does not
+refine the symbolic partial, the run contains the rule `nrootPow`, and the hypothesis of
+`as_expression_sound_partial` fails for this input — it cannot be dropped. -/
+theorem as_expression_K1_witness :
+    let e : Expr ℝ := mkNRoot (mkNPow (mkVar "x") 2) 2
+    let s : Expr ℝ := mkDiv (mkVar "x") (mkVar "x")
+    let p : Point ℝ := [("x", -3)]
+    (PartialObj.mk e "x" none).asExpression realNum = .ok (s, ⟨e, "x", some s⟩, false) ∧
+      WF e ∧ Supp p e ∧ Dom (valOf p) e ∧
+      fwdG realNum p "x" e = .ok (-1) ∧ evalG realNum p s = .ok 1 ∧
+      ¬ Refines (symFwd realNum "x" e) s ∧
+      StepEvent.rule .nrootPow ∈ (fullyReduce realNum (symFwd realNum "x" e)).trace ∧
+      ¬ NormOK K1FreeAt REDUCTION_STEPS_BOUND NORMALIZE_FUEL (symFwd realNum "x" e) := by
+  intro e s p
+  obtain ⟨hwf, hs, hd, hfd⟩ := runK1_true_partial
+  refine ⟨runK1_asExpression, hwf, hs, hd, hfd, runK1_returned_value, runK1_not_refines,
+    runK1_symFwd ▸ runK1_run_uses_nrootPow, fun hK1 => runK1_not_refines ?_⟩
+  exact (as_expression_sound_partial e "x" hwf hK1 s _ false runK1_asExpression).1
+
+/-- **K1 witness, through the product rule.**  `Partial(x * NthRoot(NthPower(x, 2), 2), "x")
+.as_expression()` returns `x + (x * x) / x`; at `x = -3` the true partial is `6`, the returned
+expression evaluates to `-6`; the hypothesis of `as_expression_sound_partial` fails for this input. -/
+theorem as_expression_K1_witness_product :
+    let e : Expr ℝ := mkMul [mkVar "x", mkNRoot (mkNPow (mkVar "x") 2) 2]
+    let s : Expr ℝ := mkAdd [mkVar "x", mkDiv (mkMul [mkVar "x", mkVar "x"]) (mkVar "x")]
+    let p : Point ℝ := [("x", -3)]
+    (PartialObj.mk e "x" none).asExpression realNum = .ok (s, ⟨e, "x", some s⟩, false) ∧
+      WF e ∧ Supp p e ∧ Dom (valOf p) e ∧
+      fwdG realNum p "x" e = .ok 6 ∧ evalG realNum p s = .ok (-6) ∧
+      ¬ NormOK K1FreeAt REDUCTION_STEPS_BOUND NORMALIZE_FUEL (symFwd realNum "x" e) := by
+  intro e s p
+  obtain ⟨hwf, hs, hd, hfd⟩ := runXabs_true_partial
+  refine ⟨runXabs_asExpression, hwf, hs, hd, hfd, runXabs_returned_value, fun hK1 => ?_⟩
+  have h := (as_expression_sound_partial e "x" hwf hK1 s _ false runXabs_asExpression).2.2.2.2.2.2 p hs hd
+  rw [runXabs_returned_value, hfd] at h
+  injection h with h
+  norm_num at h
+
+/-- the redex, the rule and the failing side condition, in isolation -/
+theorem as_expression_K1_rule_witness :
+    RuleId.nrootPow.apply realNum (mkNRoot (mkNPow (mkVar "x") 2) 2 : Expr ℝ) =
+        some (mkNPow (mkNRoot (mkVar "x") 2) 2) ∧
+      ¬ K1FreeAt .nrootPow (mkNRoot (mkNPow (mkVar "x") 2) 2 : Expr ℝ) ∧
+      ¬ Refines (mkNRoot (mkNPow (mkVar "x") 2) 2 : Expr ℝ) (mkNPow (mkNRoot (mkVar "x") 2) 2) ∧
+      (∃ v, evalG realNum [("x", -3)] (mkNRoot (mkNPow (mkVar "x") 2) 2 : Expr ℝ) = .ok v) ∧
+      evalG realNum [("x", -3)] (mkNPow (mkNRoot (mkVar "x") 2) 2 : Expr ℝ) = .error .domain :=
+  ⟨rfl, by simp [K1FreeAt, K1Free], nrootPow_unsound, nrootPow_unsound_eval.1,
+    nrootPow_unsound_eval.2⟩
+
+/-- the raw symbolic partial of `x · NthRoot(NthPower(x, 2), 2)` contains the same K1 redex as a
+factor (the product rule copies the other factor) -/
+theorem as_expression_K1_redex_present :
+    symFwd realNum "x" (mkMul [mkVar "x", mkNRoot (mkNPow (mkVar "x") 2) 2] : Expr ℝ) =
+      mkAdd [mkMul [mkConst 1, mkNRoot (mkNPow (mkVar "x") 2) 2],
+        mkMul [symFwd realNum "x" (mkNRoot (mkNPow (mkVar "x") 2) 2 : Expr ℝ), mkVar "x"]] := by
+  simp [symFwd, symFwdList, symMulTerms, symMulTermsGo]
+
+/-! ## reverse route: see Proofs/SymReverse.lean
+
+(`symRev` / `syntheticPartials`, the model of `_compute_synthetic_partials` and `_synthetic_partials`,
+used by `Differential`: to be filled in by the task that delivers Proofs/SymReverse.lean.)
+-/
+
+/-! ## non-vacuity -/
+
+/-- the hypotheses of the forward-route theorems are satisfiable by a non-trivial instance: a product
+in which the variable occurs in several factors, an odd root of a negative inner value, a base below
+one, a general power and a logarithm, at a point of the domain, with two variables -/
+example :
+    let e : Expr ℝ := mkMul [mkVar "x", mkNRoot (mkMinus (mkVar "x") (mkConst 9)) 3,
+      mkExp (mkVar "y") (1 / 2), mkPow (mkVar "x") (mkVar "y"), mkLog (mkVar "x") 10]
+    let p : Point ℝ := [("y", 2), ("x", 1)]
+    WF e ∧ Supp p e ∧ Dom (valOf p) e := by
+  simp [WF, WFList, Supp, SuppList, Dom, DomList, den, valOf, Point.get?]
+  norm_num
+
+/-- "its domain may only be larger" — and it can be strictly larger: `Exponential(1/x, base 1)` is
+undefined at `x = 0`, its symbolic partial is the constant 0, defined everywhere -/
+example :
+    let e : Expr ℝ := mkExp (mkRecip (mkVar "x")) 1
+    WF e ∧ ¬ Dom (fun _ => (0 : ℝ)) e ∧ Dom (fun _ => (0 : ℝ)) (symFwd realNum "x" e) := by
+  simp [WF, Dom, den, symFwd, unarySymFormula]
+
+/-- a concrete second-order instance: for `e = x² · y` the twice-differentiated expression
+`∂/∂y ∂/∂x` evaluates to `2·x` (here at x = 3, y = 5: 6), as `second_order_partial_value` says -/
+example :
+    let e : Expr ℝ := mkMul [mkNPow (mkVar "x") 2, mkVar "y"]
+    let p : Point ℝ := [("x", 3), ("y", 5)]
+    WF e ∧ Supp p e ∧ Dom (valOf p) e ∧
+      den (valOf p) (symFwd realNum "y" (symFwd realNum "x" e)) = 6 := by
+  simp [WF, WFList, Supp, SuppList, Dom, DomList, den, denList, valOf, Point.get?, symFwd,
+    symFwdList, symMulTerms, symMulTermsGo, unarySymFormula]
+  norm_num
+
+/-- the hypotheses of `as_expression_sound_partial` are satisfiable by a non-trivial instance:
+`Partial(x * sin x, "x").as_expression()` over the reals runs 14 reduction steps (3 rule
+applications, none of them `nrootPow`) and the normal-form pass, and returns
+`Add(Sine(x), Multiply(Cosine(x), x))`; the K1 side condition holds of the whole run -/
+example :
+    let e : Expr ℝ := mkMul [mkVar "x", mkSin (mkVar "x")]
+    let s : Expr ℝ := mkAdd [mkSin (mkVar "x"), mkMul [mkCos (mkVar "x"), mkVar "x"]]
+    WF e ∧ NormOK K1FreeAt REDUCTION_STEPS_BOUND NORMALIZE_FUEL (symFwd realNum "x" e) ∧
+      (PartialObj.mk e "x" none).asExpression realNum = .ok (s, ⟨e, "x", some s⟩, false) :=
+  ⟨by simp [WF, WFList], runXsin_symFwd ▸ runXsin_normOK _, runXsin_asExpression⟩
+
+
+/-! ## Reverse symbolic route (what Differential(compute_early=True) stores)
+
+C05 (reverse symbolic route) — `Differential(e, compute_early=True)` : the expressions built by
+`_compute_synthetic_partials` / `_synthetic_partials()` are sound.
+
+`symRev realNum e m acc` is the model of `e._compute_synthetic_partials(accumulator, multiplier)`
+(a symbolic multiplier is passed down; at every variable occurrence it is added into the
+`SyntheticPartialsAccumulator`: absent → set, present → `Add(existing, contribution)`);
+`syntheticPartials realNum e` of `e._synthetic_partials()` (multiplier `Constant(1)`, empty
+accumulator, read back every variable of `e`, default `Constant(0)`); `DifferentialObj.new realNum e
+true` of `Differential(e, compute_early=True)`, which stores each component after `_normalize()`.
+
+`den ρ s` is the real number the expression `s` denotes, `Dom ρ s` its documented domain, `Supp p s`
+"the point has a coordinate for every variable of `s`", `WF s` what every constructible expression
+satisfies (C16); `fwdG realNum p y e` is forward mode, which by C03 is the true partial derivative.
+Proofs: Proofs/SymReverse.lean (same architecture as Proofs/Reverse.lean, the numeric analogue C04).
+-/
+open Expr
+
+/-! ### one traversal -/
+
+/-- **C05r, one traversal.**  At a supplied point of the domain of `e`, with a multiplier `m` and an
+accumulator that are well formed, supplied and defined at the point, one traversal ends in an
+accumulator with the same three properties, in which the VALUE of the expression of *every* variable
+`y` has grown by `(value of m) · (forward-mode partial of e w.r.t. y)` — also for a variable occurring
+several times, and also below a `Power` whose variable-free base equals 1 (where the numeric code
+takes a short-cut that the symbolic code does not have: the symbolic contributions are then `… · 0`
+and `log 1 · …`). -/
+theorem reverse_symbolic_traversal (p : Point ℝ) (e : Expr ℝ) (hwf : WF e) (hs : Supp p e)
+    (hd : Dom (valOf p) e) (m : Expr ℝ) (acc : SAcc ℝ) (hm1 : WF m) (hm2 : Supp p m)
+    (hm3 : Dom (valOf p) m) (ha1 : WFA acc) (ha2 : SuppA p acc) (ha3 : DomA (valOf p) acc) :
+    let acc' := symRev realNum e m acc
+    WFA acc' ∧ SuppA p acc' ∧ DomA (valOf p) acc' ∧
+      ∀ y d, fwdG realNum p y e = .ok d →
+        denA (valOf p) acc' y = denA (valOf p) acc y + den (valOf p) m * d :=
+  symRev_spec' p e hwf hs hd m acc hm1 hm2 hm3 ha1 ha2 ha3
+
+/-- what `add_to` does to the lookups -/
+theorem accumulator_add_to (acc : SAcc ℝ) (x z : String) (c : Expr ℝ) :
+    SAcc.get? (SAcc.addTo acc x c) z =
+      if z = x then some (SAcc.merged (SAcc.get? acc x) c) else SAcc.get? acc z :=
+  SAcc.get?_addTo acc x z c
+
+/-- `existing + contribution` : the contribution itself on first use, then the binary `Add` -/
+theorem accumulator_merged (ex c : Expr ℝ) :
+    SAcc.merged none c = c ∧ SAcc.merged (some ex) c = mkAdd [ex, c] := ⟨rfl, rfl⟩
+
+/-! ### `_synthetic_partials()` -/
+
+/-- the dictionary has exactly the variables of `e` as keys -/
+theorem reverse_symbolic_keys (e : Expr ℝ) (y : String) :
+    (∃ s, SAcc.get? (syntheticPartials realNum e) y = some s) ↔ y ∈ e.vars := by
+  rw [syntheticPartials_get?]
+  split <;> simp [*]
+
+/-- **C05r, value.**  For every variable `y` of `e`, at every supplied point of the domain of `e`,
+the stored expression denotes the true partial derivative of `e` with respect to `y`. -/
+theorem reverse_symbolic_value (p : Point ℝ) (e : Expr ℝ) (hwf : WF e) (hs : Supp p e)
+    (hd : Dom (valOf p) e) (y : String) (hy : y ∈ e.vars) : ∃ s,
+      SAcc.get? (syntheticPartials realNum e) y = some s ∧
+        HasDerivAt (fun t => den (upd (valOf p) y t) e) (den (valOf p) s) (valOf p y) :=
+  syntheticPartials_hasDerivAt hwf hs hd hy
+
+/-- the same through the two executable routes: evaluating the stored expression IS asking
+forward mode (`Partial(e, y).at(p)` without early computation) -/
+theorem reverse_symbolic_value_eval (p : Point ℝ) (e : Expr ℝ) (hwf : WF e) (hs : Supp p e)
+    (hd : Dom (valOf p) e) (y : String) (s : Expr ℝ)
+    (hget : SAcc.get? (syntheticPartials realNum e) y = some s) :
+    evalG realNum p s = fwdG realNum p y e :=
+  syntheticPartials_eval hwf hs hd hget
+
+/-- **C05r, definedness.**  Every stored expression needs no coordinate that `e` does not need and is
+inside its documented domain wherever `e` is: evaluating it there succeeds. -/
+theorem reverse_symbolic_defined (p : Point ℝ) (e : Expr ℝ) (hwf : WF e) (hs : Supp p e)
+    (hd : Dom (valOf p) e) (y : String) (s : Expr ℝ)
+    (hget : SAcc.get? (syntheticPartials realNum e) y = some s) :
+    Supp p s ∧ Dom (valOf p) s ∧ evalG realNum p s = .ok (den (valOf p) s) := by
+  have hy : y ∈ e.vars := (reverse_symbolic_keys e y).mp ⟨s, hget⟩
+  obtain ⟨s', hs', h1, h2, h3, _⟩ := syntheticPartials_sound hwf hs hd y hy
+  rw [hget] at hs'; injection hs' with hs'; subst hs'
+  exact ⟨h2, h3, (evalR_good p s h1).ok_iff.mpr ⟨h2, h3, rfl⟩⟩
+
+/-- **C05r, well-formedness.**  Every stored expression is well formed (n ≥ 1, bases positive,
+logarithm bases ≠ 1). -/
+theorem reverse_symbolic_wf (e : Expr ℝ) (hwf : WF e) (y : String) (s : Expr ℝ)
+    (hget : SAcc.get? (syntheticPartials realNum e) y = some s) : WF s := by
+  have h : SAccWF (syntheticPartials realNum e) := WF_syntheticPartials e hwf
+  exact SAccWF_get? h hget
+
+/-- **C05r, variables.**  Every stored expression mentions only variables of `e`. -/
+theorem reverse_symbolic_vars (e : Expr ℝ) (y : String) (s : Expr ℝ)
+    (hget : SAcc.get? (syntheticPartials realNum e) y = some s) (x : String) (hx : x ∈ s.vars) :
+    x ∈ e.vars :=
+  (mem_vars x e).mpr (syntheticPartials_occurs realNum e hget ((mem_vars x s).mp hx))
+
+/-! ### the normalised components stored by `Differential(e, compute_early=True)`
+
+`NormOK K1FreeAt REDUCTION_STEPS_BOUND NORMALIZE_FUEL s` says that the run of `_normalize()` on `s`
+performs no application of the one unsound rule (K1: `NthRoot(NthPower(u, m), n)` with `m`, `n` both
+even); see C08.  It is required of the raw components only. -/
+
+/-- `Differential(e, compute_early=True)` stores `normalizeAll` of `_synthetic_partials()` -/
+theorem differential_early_stored (e : Expr ℝ) (D : DifferentialObj ℝ) (w : Bool)
+    (hnew : DifferentialObj.new realNum e true = .ok (D, w)) :
+    ∃ d, normalizeAll realNum (syntheticPartials realNum e) = .ok (d, w) ∧ D = ⟨e, some d⟩ :=
+  differentialNew_early realNum e hnew
+
+/-- **C05r, normalised components refine the raw ones**: same keys; each normalised component is
+well formed, needs no new variable, is defined wherever the raw one is and has the same value there. -/
+theorem differential_early_refines (e : Expr ℝ) (d : SAcc ℝ) (w : Bool)
+    (h : normalizeAll realNum (syntheticPartials realNum e) = .ok (d, w))
+    (hok : ∀ y s, SAcc.get? (syntheticPartials realNum e) y = some s →
+      NormOK K1FreeAt REDUCTION_STEPS_BOUND NORMALIZE_FUEL s) :
+    (∀ y, y ∉ e.vars → SAcc.get? d y = none) ∧
+    ∀ y ∈ e.vars, ∃ s s', SAcc.get? (syntheticPartials realNum e) y = some s ∧
+      SAcc.get? d y = some s' ∧ Refines s s' :=
+  normalizeAll_refines h hok
+
+/-- **C05r, normalised value.**  On the domain of the ORIGINAL expression every stored normalised
+component evaluates to the forward-mode partial, i.e. (C03) the true partial derivative. -/
+theorem differential_early_value (p : Point ℝ) (e : Expr ℝ) (hwf : WF e) (hs : Supp p e)
+    (hd : Dom (valOf p) e) (d : SAcc ℝ) (w : Bool)
+    (h : normalizeAll realNum (syntheticPartials realNum e) = .ok (d, w))
+    (hok : ∀ y s, SAcc.get? (syntheticPartials realNum e) y = some s →
+      NormOK K1FreeAt REDUCTION_STEPS_BOUND NORMALIZE_FUEL s)
+    (y : String) (s' : Expr ℝ) (hget : SAcc.get? d y = some s') :
+    evalG realNum p s' = fwdG realNum p y e :=
+  normalizeAll_eval hwf hs hd h hok hget
+
+/-- **C05r, public object.**  `Differential(e, compute_early=True).component_at(y, p)` answers what
+forward mode answers, for every name `y` (for a name that is not a variable of `e` the object falls
+back to `Partial(e, y)`). -/
+theorem differential_early_component_at (p : Point ℝ) (e : Expr ℝ) (hwf : WF e) (hs : Supp p e)
+    (hd : Dom (valOf p) e) (D : DifferentialObj ℝ) (w : Bool)
+    (hnew : DifferentialObj.new realNum e true = .ok (D, w))
+    (hok : ∀ y s, SAcc.get? (syntheticPartials realNum e) y = some s →
+      NormOK K1FreeAt REDUCTION_STEPS_BOUND NORMALIZE_FUEL s) (y : String) :
+    D.componentAt realNum y p = fwdG realNum p y e :=
+  differential_early_componentAt hwf hs hd hnew hok y
+
+/-! ### non-vacuity -/
+
+/-- the hypotheses of the traversal / value / definedness theorems: a sum of a `Power` with the
+variable-free base 1 (the numeric short-cut), a quotient, and a product with a repeated variable, at a
+point listing the coordinates in another order -/
+example :
+    let e : Expr ℝ := mkAdd [mkPow (mkConst 1) (mkVar "x"), mkDiv (mkSin (mkVar "x")) (mkVar "y"),
+      mkMul [mkVar "x", mkVar "y", mkVar "x"]]
+    let p : Point ℝ := [("y", 2), ("x", 3)]
+    WF e ∧ Supp p e ∧ Dom (valOf p) e ∧ e.vars = ["x", "y"] := by
+  simp [WF, WFList, Supp, SuppList, Dom, DomList, den, valOf, Point.get?, vars, varsAux, varsAuxList]
+
+/-- a multiplier and a non-empty accumulator meeting the hypotheses of `reverse_symbolic_traversal` -/
+example :
+    let p : Point ℝ := [("y", 2), ("x", 3)]
+    let m : Expr ℝ := mkRecip (mkVar "y")
+    let acc : SAcc ℝ := [("x", mkLog (mkVar "x") 2)]
+    WF m ∧ Supp p m ∧ Dom (valOf p) m ∧ WFA acc ∧ SuppA p acc ∧ DomA (valOf p) acc := by
+  intro p m acc
+  have hacc : ∀ y s, SAcc.get? acc y = some s → s = mkLog (mkVar "x") 2 := by
+    intro y s h
+    simp only [acc, SAcc.get?] at h
+    split at h
+    · injection h with h; exact h.symm
+    · cases h
+  refine ⟨by simp [m, WF], by simp [m, p, Supp, Point.get?],
+    by simp [m, p, Dom, den, valOf, Point.get?], ?_, ?_, ?_⟩
+  · intro y s h; rw [hacc y s h]; norm_num [WF]
+  · intro y s h; rw [hacc y s h]; simp [p, Supp, Point.get?]
+  · intro y s h; rw [hacc y s h]; simp [p, Dom, den, valOf, Point.get?]
+
+/-- what `_synthetic_partials()` stores for `x · y` (accumulator entries are really created and read
+back) -/
+example : syntheticPartials realNum (mkMul [mkVar "x", mkVar "y"] : Expr ℝ) =
+    [("x", mkMul [mkConst 1, mkVar "y"]), ("y", mkMul [mkConst 1, mkVar "x"])] :=
+  symrevEx_partials "x" "y" (by decide)
+
+/-- a variable occurring twice: the second contribution goes through `Add(existing, contribution)` -/
+example : SAcc.get? (syntheticPartials realNum (mkAdd [mkVar "x", mkVar "x"] : Expr ℝ)) "x" =
+    some (mkAdd [mkConst 1, mkConst 1]) := by
+  simp [syntheticPartials, symRev, symRevList, SAcc.addTo, SAcc.get?, SAcc.set, vars, varsAux,
+    varsAuxList]
+
+/-- the hypotheses of the theorems about the normalised components are satisfiable: for `e = x · y`
+the object is built (without warning), it stores `{x: y, y: x}`, and the run of the rewriter on each
+raw component (four steps, one of them the rule `mulOnes`) performs no K1 application -/
+example :
+    let e : Expr ℝ := mkMul [mkVar "x", mkVar "y"]
+    DifferentialObj.new realNum e true = .ok (⟨e, some [("x", mkVar "y"), ("y", mkVar "x")]⟩, false) ∧
+      (∀ z s, SAcc.get? (syntheticPartials realNum e) z = some s →
+        NormOK K1FreeAt REDUCTION_STEPS_BOUND NORMALIZE_FUEL s) ∧
+      WF e ∧ Supp [("y", 2), ("x", 3)] e ∧ Dom (valOf [("y", 2), ("x", 3)]) e :=
+  ⟨symrevEx_differential "x" "y" (by decide), symrevEx_hok "x" "y" (by decide),
+    by simp [WF, WFList, Supp, SuppList, Dom, DomList, Point.get?]⟩
+
+
 end Smooth
